@@ -74,6 +74,7 @@ type VC struct {
 	heapNames     map[string]Sort   // heap array name -> sort
 	heapOrder     []string
 	epochCtr      int
+	logWrites     bool // the unit's contract mentions wrote(): io.Writer.Write records byte contents
 	capStack      []*captureBuf
 	valK, valV    map[string]Sort
 }
